@@ -291,3 +291,20 @@ func (p *rxPool) poison() {
 	p.c.Fault("poison")
 	p.c.Ev("poison")
 }
+
+// spare hands an input over the way applications often hold it: as a prefix of a larger buffer.
+// cap > len, and the bytes beyond len are somebody else's (stale data of the buffer): anything that
+// looks at cap(), reslices beyond len or appends in place shows up as wrong output or as damage there.
+func spare(t *core.Tape, b []byte) []byte {
+	if !t.Chance(1, 3) {
+		return b
+	}
+	extra := 1 + t.Intn(64)
+	if t.Chance(1, 4) {
+		extra = 1000 + t.Intn(3000)
+	}
+	buf := make([]byte, len(b)+extra)
+	copy(buf, b)
+	core.FillBytes(buf[len(b):], t.Draw(0)|1)
+	return buf[:len(b)]
+}
